@@ -33,6 +33,15 @@ func primTable(withBytes bool) []fspec {
 		{"s_ip4", dg.Prim("String"), dg.Validation{Format: "ipv4"}, "10.0.0.1"},
 		{"s_mail", dg.Prim("String"), dg.Validation{Format: "email"}, nil},
 		{"s_dt", dg.Prim("String"), dg.Validation{Format: "date-time"}, nil},
+		{"s_ip", dg.Prim("String"), dg.Validation{Format: "ip"}, nil},
+		{"s_ip6", dg.Prim("String"), dg.Validation{Format: "ipv6"}, nil},
+		{"s_host", dg.Prim("String"), dg.Validation{Format: "hostname"}, nil},
+		{"s_uri", dg.Prim("String"), dg.Validation{Format: "uri"}, nil},
+		{"s_mac", dg.Prim("String"), dg.Validation{Format: "mac"}, nil},
+		{"s_cidr", dg.Prim("String"), dg.Validation{Format: "cidr"}, nil},
+		{"s_re", dg.Prim("String"), dg.Validation{Format: "regexp"}, nil},
+		{"s_json", dg.Prim("String"), dg.Validation{Format: "json"}, nil},
+		{"s_rfc", dg.Prim("String"), dg.Validation{Format: "rfc1123"}, nil},
 		{"s_pat", dg.Prim("String"), dg.Validation{Pattern: "^[a-z]+$"}, "abc"},
 		{"s_pat2", dg.Prim("String"), dg.Validation{Pattern: "a.c"}, nil},
 		{"s_min", dg.Prim("String"), dg.Validation{MinLen: ip(2)}, "dflt"},
@@ -184,7 +193,7 @@ func coveringDesigns(prop string) []*dg.Design {
 	{
 		d := &dg.Design{Name: "cov_hdr", Features: []string{"covering", "headers", "path_params", "cookie"}}
 		s := &dg.Service{Name: "hdr"}
-		pick := map[string]bool{"s_enum": true, "s_date": true, "s_pat": true, "s_min": true, "s_len": true, "i_min": true, "i_xmax": true, "i_rng": true, "i_enum": true, "u32_max": true, "f_max": true, "f_xmin": true, "flag": true}
+		pick := map[string]bool{"s_enum": true, "s_date": true, "s_ip": true, "s_pat": true, "s_min": true, "s_len": true, "i_min": true, "i_xmax": true, "i_rng": true, "i_enum": true, "u32_max": true, "f_max": true, "f_xmin": true, "flag": true}
 		var tab []fspec
 		for _, sp := range primTable(false) {
 			if pick[sp.name] {
@@ -221,11 +230,12 @@ func coveringDesigns(prop string) []*dg.Design {
 			dg.Req("p_f", dg.Prim("Float64")).With(dg.Validation{ExclMin: fp(0)}),
 			dg.Req("p_u", dg.Prim("UInt32")).With(dg.Validation{Max: fp(7)}),
 			dg.Req("p_e", dg.Prim("String")).With(dg.Validation{Enum: []any{"a", "bc"}}),
+			dg.Req("p_x", dg.Prim("Int")).With(dg.Validation{ExclMax: fp(10)}),
 			dg.F("c_s", dg.Prim("String")).With(dg.Validation{MinLen: ip(2), MaxLen: ip(6)}),
 			dg.F("c_e", dg.Prim("String")).With(dg.Validation{Enum: []any{"x1", "y2"}}),
 		}
 		pp := dg.A(dg.Obj(pf...))
-		s.Methods = append(s.Methods, method("path", "GET", "/path/{p_s}/{p_i}/{p_f}/{p_u}/{p_e}", &pp,
+		s.Methods = append(s.Methods, method("path", "GET", "/path/{p_s}/{p_i}/{p_f}/{p_u}/{p_e}/{p_x}", &pp,
 			&dg.HTTPMap{Cookies: []dg.MapEntry{{Attr: "c_s", Wire: "c_s_ck"}, {Attr: "c_e", Wire: "c_e_ck"}}}))
 		// primitive payloads travelling alone
 		prim := dg.Attr{T: dg.Prim("Int"), V: &dg.Validation{Min: fp(2), Max: fp(6)}}
@@ -246,9 +256,20 @@ func coveringDesigns(prop string) []*dg.Design {
 			{Name: "AliasI", Base: dg.Prim("Int"), V: &dg.Validation{Min: fp(1)}},
 			{Name: "AliasF", Base: dg.Prim("Float64"), V: &dg.Validation{Max: fp(9.5)}},
 			{Name: "AliasE", Base: dg.Prim("String"), V: &dg.Validation{Enum: []any{"on", "off"}}},
+			{Name: "AliasX", Base: dg.Prim("Float64"), V: &dg.Validation{ExclMax: fp(7)}},
+			{Name: "Color", Base: dg.Prim("String"), V: &dg.Validation{Enum: []any{"red", "green", "blue"}}},
+			{Name: "Level", Base: dg.Prim("Int"), V: &dg.Validation{Enum: []any{1, 2, 3}}},
+			{Name: "Tone", Base: dg.Obj(dg.F("c1", dg.Ref("Color")), dg.F("c2", dg.Ref("Color")), dg.F("l1", dg.Ref("Level")))},
+			{Name: "Paint", Base: dg.Obj(
+				dg.F("primary", dg.Ref("Color")).With(dg.Validation{Enum: []any{"red"}}),
+				dg.F("secondary", dg.Ref("Color")),
+				dg.F("third", dg.Ref("Color")).With(dg.Validation{Enum: []any{"green", "blue"}}),
+				dg.F("lvl", dg.Ref("Level")).With(dg.Validation{Enum: []any{2}}),
+				dg.F("lvl2", dg.Ref("Level")))},
 			{Name: "Inner", Base: dg.Obj(
 				dg.Req("name", dg.Prim("String")).With(dg.Validation{MinLen: ip(1)}),
 				dg.F("n", dg.Prim("Int")).With(dg.Validation{Min: fp(0), Max: fp(5)}),
+				dg.F("xm", dg.Prim("Float64")).With(dg.Validation{ExclMax: fp(3)}),
 				dg.F("tags", dg.ArrayOf(dg.Attr{T: dg.Prim("String"), V: &dg.Validation{MaxLen: ip(3)}})).With(dg.Validation{MaxLen: ip(2)}))},
 			{Name: "Rec", Base: dg.Obj(
 				dg.Req("v", dg.Prim("Int")).With(dg.Validation{Min: fp(1)}),
@@ -282,8 +303,33 @@ func coveringDesigns(prop string) []*dg.Design {
 			dg.F("al_i", dg.Ref("AliasI")),
 			dg.F("al_f", dg.Ref("AliasF")),
 			dg.F("al_e", dg.Ref("AliasE")),
+			dg.F("al_x", dg.Ref("AliasX")),
+			// attribute-level validations on alias-typed attributes, next to plain siblings of the same alias
+			dg.F("al_sen", dg.Ref("AliasS")).With(dg.Validation{Enum: []any{"ab", "cd"}}),
+			dg.F("al_sib", dg.Ref("AliasS")),
+			dg.F("al_en", dg.Ref("AliasE")).With(dg.Validation{Enum: []any{"on"}}),
+			dg.F("al_en2", dg.Ref("AliasE")),
+			dg.F("al_ien", dg.Ref("AliasI")).With(dg.Validation{Enum: []any{0, 1, 2}}),
+			dg.F("primary", dg.Ref("Color")).With(dg.Validation{Enum: []any{"red"}}),
+			dg.F("secondary", dg.Ref("Color")),
+			dg.F("paint", dg.Ref("Paint")),
+			dg.F("paints", dg.ArrayOf(dg.A(dg.Ref("Paint")))),
+			dg.F("tone", dg.Ref("Tone")),
+			dg.F("arr_c1", dg.ArrayOf(dg.Attr{T: dg.Ref("Color"), V: &dg.Validation{Enum: []any{"blue"}}})),
+			dg.F("arr_c2", dg.ArrayOf(dg.A(dg.Ref("Color")))),
+			dg.F("al_i2", dg.Ref("AliasI")),
 			dg.F("arr_al", dg.ArrayOf(dg.A(dg.Ref("AliasS")))),
 			dg.F("map_al", dg.MapOf(dg.A(dg.Prim("String")), dg.A(dg.Ref("AliasI"))))))
+		if prop == "C14" {
+			// recorded finding alias-attribute-validation-undocumented-in-user-type: witness stream only
+			var keep []*dg.Field
+			for _, f := range aliasP.T.Attrs {
+				if f.Name != "paint" && f.Name != "paints" {
+					keep = append(keep, f)
+				}
+			}
+			aliasP.T.Attrs = keep
+		}
 		s.Methods = append(s.Methods, method("m_alias", "POST", "/nested/alias", &aliasP, nil))
 		userP := dg.A(dg.Obj(
 			dg.Req("in_req", dg.Ref("Inner")),
@@ -292,6 +338,8 @@ func coveringDesigns(prop string) []*dg.Design {
 			dg.F("map_in", dg.MapOf(dg.A(dg.Prim("String")), dg.A(dg.Ref("Inner")))),
 			dg.F("ro", dg.Ref("ReqOnly")),
 			dg.F("arr_ro", dg.ArrayOf(dg.A(dg.Ref("ReqOnly")))),
+			dg.F("arr2_ro", dg.ArrayOf(dg.A(dg.ArrayOf(dg.A(dg.Ref("ReqOnly")))))),
+			dg.F("arr2_in", dg.ArrayOf(dg.A(dg.ArrayOf(dg.A(dg.Ref("Inner")))))),
 			dg.F("plain", dg.Ref("Plain"))))
 		s.Methods = append(s.Methods, method("m_user", "POST", "/nested/user", &userP, nil))
 		recP := dg.A(dg.Ref("Rec"))
@@ -364,7 +412,9 @@ func witnessDesigns() []*dg.Design {
 	d.Types = []*dg.UserType{{Name: "ReqOnly", Base: dg.Obj(dg.Req("a", dg.Prim("String")), dg.Req("b", dg.Prim("Int")), dg.F("c", dg.Prim("Boolean")))}}
 	s := &dg.Service{Name: "wit"}
 	// map values of a user type whose only validations are required primitive attributes
-	mr := dg.A(dg.Obj(dg.F("map_ro", dg.MapOf(dg.A(dg.Prim("String")), dg.A(dg.Ref("ReqOnly")))), dg.F("arr_ro", dg.ArrayOf(dg.A(dg.Ref("ReqOnly"))))))
+	mr := dg.A(dg.Obj(dg.F("map_ro", dg.MapOf(dg.A(dg.Prim("String")), dg.A(dg.Ref("ReqOnly")))), dg.F("arr_ro", dg.ArrayOf(dg.A(dg.Ref("ReqOnly")))),
+		dg.F("maparr_ro", dg.MapOf(dg.A(dg.Prim("String")), dg.A(dg.ArrayOf(dg.A(dg.Ref("ReqOnly")))))),
+		dg.F("arrmap_ro", dg.ArrayOf(dg.A(dg.MapOf(dg.A(dg.Prim("String")), dg.A(dg.Ref("ReqOnly"))))))))
 	s.Methods = append(s.Methods, method("w_mapro", "POST", "/wit/mapro", &mr, nil))
 	// absent optional array / map carrying MinLength > 0
 	p := dg.A(dg.Obj(
@@ -396,6 +446,12 @@ func witnessDesigns() []*dg.Design {
 	s.Methods = append(s.Methods, method("w_doc", "POST", "/wit/doc", &by, nil))
 	ha := dg.A(dg.Obj(dg.F("h_arr", dg.ArrayOf(dg.A(dg.Prim("Int")))).With(dg.Validation{MaxLen: ip(2)})))
 	s.Methods = append(s.Methods, method("w_harr", "GET", "/wit/harr", &ha, &dg.HTTPMap{Headers: []dg.MapEntry{{Attr: "h_arr", Wire: "X-H-Arr"}}}))
+	// a named user type whose alias-typed attribute narrows the alias's Enum
+	d.Types = append(d.Types,
+		&dg.UserType{Name: "WColor", Base: dg.Prim("String"), V: &dg.Validation{Enum: []any{"red", "green", "blue"}}},
+		&dg.UserType{Name: "WPaint", Base: dg.Obj(dg.F("primary", dg.Ref("WColor")).With(dg.Validation{Enum: []any{"red"}}), dg.F("secondary", dg.Ref("WColor")))})
+	wp := dg.A(dg.Obj(dg.F("paint", dg.Ref("WPaint"))))
+	s.Methods = append(s.Methods, method("w_paint", "POST", "/wit/paint", &wp, nil))
 	// two structurally equal payloads with different validations
 	sh1 := dg.A(dg.Obj(dg.F("shm", dg.MapOf(dg.A(dg.Prim("String")), dg.Attr{T: dg.Prim("Int"), V: &dg.Validation{Min: fp(1)}}))))
 	s.Methods = append(s.Methods, method("w_sh1", "POST", "/wit/sh1", &sh1, nil))
